@@ -1,4 +1,6 @@
 import NA.Proofs.C17Sinks
+import NA.Proofs.C17Xml
+import NA.Proofs.C17Ssh
 /-!
 # C17 — passwords and API keys never reach logs, history or terminal
 
@@ -130,6 +132,33 @@ theorem ssh_login_log_is_expected_output (ops : List Op) (h : noSetLog ops = tru
   have := sshRun_login_aux ops h {} rfl
   simpa [sshRun] using this
 
+/-- **Step model of the SSH sessions.**  For every dialogue program of the step language (the
+password is a symbolic command), every device behaviour (sequence of complete or cut-off segments),
+every tail: two sessions with different passwords leave the same sinks — session logs per file, run
+log with the abort text of the step that failed, history, stdout. -/
+theorem ssh_program_independent (prog : Prog) (p1 p2 errText : Str) (segs : List Seg) (applies : Bool)
+    (tl : List (Str × Option Str)) (tailAbort : Str) :
+    allSinks (sshRun (sessionOps prog p1 errText segs applies tl tailAbort)) =
+      allSinks (sshRun (sessionOps prog p2 errText segs applies tl tailAbort)) :=
+  ssh_sinks_independent _ _ (sessionOps_erase prog p1 p2 errText segs applies tl tailAbort)
+
+/-- … in particular for the three modelled back ends: `cisco.LoginEnable` + `asa/ios.LoadDevice`,
+`linux.loginEnable` + `linux.LoadDevice`, step by step as in the code. -/
+theorem ssh_session_independent (dt : DevType) (host banner p1 p2 errText : Str) (segs : List Seg)
+    (applies : Bool) (tl : List (Str × Option Str)) (tailAbort : Str) :
+    allSinks (sshRun (sessionOps (loadProg dt host banner) p1 errText segs applies tl tailAbort)) =
+      allSinks (sshRun (sessionOps (loadProg dt host banner) p2 errText segs applies tl tailAbort)) :=
+  ssh_program_independent _ p1 p2 errText segs applies tl tailAbort
+
+/-- The step model is not vacuous: an IOS login with enable password sends the password twice and
+logs the three prompts to `.login`, nothing else. -/
+example :
+    let ops := sessionOps (iosLoad "router".toList) "pw".toList [] [.full "Password:".toList, .full "\nrouter>".toList,
+      .full "enable\nPassword:".toList, .part "x".toList] false [] []
+    sendsOf ops = ["pw".toList, "enable".toList, "pw".toList] ∧
+    (sshRun ops).login = ["Password:".toList, "\nrouter>".toList, "enable\nPassword:".toList, "x".toList] := by
+  decide
+
 /-! ## PAN-OS: whole runs -/
 
 /-- The statement for whole PAN-OS runs is **false** (F-C17): same password, same device behaviour,
@@ -189,6 +218,44 @@ theorem ha_check_transport_error_independent (addr user p1 p2 name ip pre post m
       allSinks (panosRun addr user p2 name ip (.ok (keyBody pre k2 post)) k2 reqs (.terr m :: rest)) :=
   sinks_independent_partial addr user p1 p2 name ip pre post h1 h2 reqs (.terr m :: rest) rfl
 
+/-! ## the key is what the (modelled) parser extracts — no assumption `parseAPIKey body = K` -/
+
+/-- The modelled `parseAPIKey` (lexer, element stack, last-child-wins field assignment of
+`encoding/xml`) returns exactly `k` for every PAN-OS keygen answer
+`<response status = 'success'> <result> <key>k</key> </result> </response>`: any white space at the
+nine places, either quote, any key of plain bytes, anything behind the root element. -/
+theorem parse_api_key_returns_key {w0 w1 w2 w3 w4 w5 w6 w7 : Str} (q : Char) {k : Str} (tail : Str)
+    (h0 : PWs w0) (h1 : PWs w1) (h2 : PWs w2) (h3 : PWs w3) (h4 : PWs w4) (h5 : PWs w5) (h6 : PWs w6) (h7 : PWs w7)
+    (hq : q = '"' ∨ q = '\'') (hk : Plain k) :
+    parseAPIKeyM (stdKeygen w0 w1 w2 q w3 w4 w5 k w6 w7 tail) = .ok k :=
+  parseAPIKeyM_stdKeygen q tail h0 h1 h2 h3 h4 h5 h6 h7 hq hk
+
+/-- Whole PAN-OS runs in which the key used for the later requests is the one the modelled parser
+extracts from the keygen answer: all sinks equal, outside the F-C17 path. -/
+theorem sinks_independent_parsed_partial (addr user p1 p2 name ip : Str)
+    {w0 w1 w2 w3 w4 w5 w6 w7 : Str} (q : Char) {k1 k2 : Str} (tail : Str)
+    (h0 : PWs w0) (h1 : PWs w1) (h2 : PWs w2) (h3 : PWs w3) (h4 : PWs w4) (h5 : PWs w5) (h6 : PWs w6) (h7 : PWs w7)
+    (hq : q = '"' ∨ q = '\'') (hk1 : Plain k1) (hk2 : Plain k2) (hs1 : Safe k1) (hs2 : Safe k2)
+    (reqs : List Req) (reps : List Reply)
+    (hpath : leakPath (.ok []) reqs reps = false) :
+    allSinks (panosRunParsed addr user p1 name ip (stdKeygen w0 w1 w2 q w3 w4 w5 k1 w6 w7 tail) reqs reps) =
+      allSinks (panosRunParsed addr user p2 name ip (stdKeygen w0 w1 w2 q w3 w4 w5 k2 w6 w7 tail) reqs reps) := by
+  unfold panosRunParsed
+  rw [parseAPIKeyM_stdKeygen q tail h0 h1 h2 h3 h4 h5 h6 h7 hq hk1,
+    parseAPIKeyM_stdKeygen q tail h0 h1 h2 h3 h4 h5 h6 h7 hq hk2]
+  obtain ⟨pre, post, hb⟩ := stdKeygen_keyBody w0 w1 w2 q w3 w4 w5 k1 w6 w7 tail
+  simp only [hb k1, hb k2]
+  have hl : leakPath (.ok (keyBody pre k1 post)) reqs reps = leakPath (.ok []) reqs reps := by
+    cases reps with
+    | nil => rfl
+    | cons r rs => cases r <;> rfl
+  exact sinks_independent_partial addr user p1 p2 name ip pre post hs1 hs2 reqs reps (hl.trans hpath)
+
+example : PWs [' ', '\n', '\t'] := by unfold PWs; decide
+example : Plain "LUFRPT14MW5xOEo1R09KVlBZ+/=".toList := by unfold Plain; decide
+example : parseAPIKeyM "<response status = 'success'>\n <result><key>LUFRPT=</key></result>\n</response>\n".toList =
+    .ok "LUFRPT=".toList := by decide
+
 /-- A run whose login fails (any reply that is not a parsed key): no hypothesis on the path is needed,
 and the key argument is irrelevant. -/
 theorem sinks_independent_login_failure (addr user p1 p2 name ip k1 k2 : Str) (kg : Reply)
@@ -241,7 +308,9 @@ def obligations : List Lean.Name := [
   ``mask_api_amp_counterexample, ``mask_body_newline_counterexample,
   ``nsx_login_log_independent, ``nsx_sinks_independent,
   ``ssh_log_is_device_output_only, ``ssh_sinks_independent, ``ssh_login_log_is_expected_output,
+  ``ssh_program_independent, ``ssh_session_independent,
   ``sinks_independent_counterexample, ``sinks_counterexample_line, ``sinks_independent_partial,
-  ``sinks_independent_login_failure, ``sinks_independent]
+  ``sinks_independent_login_failure, ``sinks_independent,
+  ``parse_api_key_returns_key, ``sinks_independent_parsed_partial]
 
 end NA.C17
